@@ -258,6 +258,7 @@ struct Node {
   Type *func_ty;
   Node *args;
   bool pass_by_stack;
+  int stack_padding; // bytes of padding above this stack argument
   Obj *ret_buffer;
 
   // Goto or labeled statement, or labels-as-values
